@@ -1718,11 +1718,46 @@ def run(ctx):
     boring_premise_cases(ctx)
     boring_huge_nu_case(ctx)
     totalisation_cases(ctx)
+    big_cluster_cases(ctx)
     ctx.extra['boring_premises_checked'] = dict(PREMISES_CHECKED)
     ctx.extra['welch_p_values_checked_against_reference'] = WELCH_CHECKED[0]
     for w in WELCH_ISSUES:
         w['class'] = 'c11-raw-p-value-is-not-the-welch-p-value'
         ctx.violation('welch_t_test: ' + '; '.join(w['problems']), w)
+
+
+F35 = 'F35-welch-nu-int64-wrap-above-2-21-cells'
+
+
+def big_cluster_cases(ctx):
+    """Cluster sizes above 2**21 cells ('cluster sizes from 1 up'): the Welch-Satterthwaite degrees of freedom of the
+    real _calculate_tt_nu (sizes handed over as np.int64, as read_raw_precomputed_stats does) against the exact rational
+    formula.  n**3 - n**2 wrapped around in int64 there (finding F35, fixed in /repo 0bfa522)."""
+    from fractions import Fraction
+    from cell_type_mapper.utils.stats_utils import _calculate_tt_nu
+    rng = ctx.rng
+    sizes = [(2200000, 2300000), (2097153, 2097153), (2642245, 1000000), (3000000, 5), (2097152, 2097152),
+             (rng.randrange(2 ** 21, 2 ** 24), rng.randrange(2 ** 21, 2 ** 24)), (10 ** 7, 10 ** 7)]
+    for n1, n2 in sizes:
+        v1 = [rng.randrange(1, 64) / 8.0 for _ in range(3)]
+        v2 = [rng.randrange(1, 64) / 8.0 for _ in range(3)]
+        m1 = [rng.randrange(0, 80) / 8.0 for _ in range(3)]
+        m2 = [rng.randrange(0, 80) / 8.0 for _ in range(3)]
+        tt, nu = _calculate_tt_nu(mean1=np.array(m1), var1=np.array(v1), n1=np.int64(n1),
+                                  mean2=np.array(m2), var2=np.array(v2), n2=np.int64(n2))
+        ctx.count(('big-cluster', n1, n2), nontrivial=True)
+        ctx.dist('welch_cluster_size', '> 2^21 cells')
+        for g in range(3):
+            a, b = Fraction(v1[g]) / n1, Fraction(v2[g]) / n2
+            want = (a + b) ** 2 / (Fraction(v1[g]) ** 2 / (n1 ** 3 - n1 ** 2) + Fraction(v2[g]) ** 2 / (n2 ** 3 - n2 ** 2))
+            got = float(nu[g])
+            if not (got > 0 and abs(got - float(want)) <= 1e-9 * float(want)):
+                ctx.disagreements_checked += 1
+                ctx.violation(f'_calculate_tt_nu with n1={n1}, n2={n2} cells (np.int64), variances {v1[g]}, {v2[g]}: nu = {got}, the '
+                              f'Welch-Satterthwaite formula gives {float(want)}',
+                              {'class': F35, 'kind': 'big-cluster', 'n1': n1, 'n2': n2, 'var1': v1, 'var2': v2, 'mean1': m1,
+                               'mean2': m2, 'nu': [float(x) for x in nu], 'expected_nu_gene': float(want), 'gene': g})
+                break
 
 
 def replay(ctx, rec):
